@@ -770,7 +770,7 @@ func writeEvidence(prop, tier string, seed int, spec checkSpec, results []*harne
 				"Every feasible path of each harness within the stated bounds was executed; each assertion became the query pathcond AND NOT(assertion); " +
 				"unsat = holds for every value on that path. " + spec.Title + ". Bounds: " + spec.Bounds + ". Outside the claim: " + spec.Outside,
 			"evaluations": paths, "distinct_nontrivial": nontriv,
-			"rule":        "one evaluation = one feasible path of a harness (a distinct decision sequence, so all are distinct); non-trivial = the path executed at least one assertion whose condition is a solver term (not a constant)",
+			"rule":        "one evaluation = one feasible path of a harness (a distinct decision sequence, so all are distinct); non-trivial = the path's condition constrains at least one symbolic input (a solver-decided branch) or the path executed an assertion whose condition is a solver term",
 			"obligations": obl, "discharged": dis,
 			"solver_queries": queries, "solver_s": round2(solver),
 			"exhaustive":          len(inconclusive) == 0,
